@@ -69,20 +69,24 @@ Lane2Min(e) == CHOOSE v \in RangeOf(e.lane) : \A w \in RangeOf(e.lane) : v <= w
 Lane2Max(e) == CHOOSE v \in RangeOf(e.lane) : \A w \in RangeOf(e.lane) : v >= w
 Sure(qi) == ~qi.up /\ ~qi.dn /\ ~qi.half        \* position not within rounding error of a breakpoint
 
+(* Beyond 2^53 Linear's documented computation goes through f64: only its exact points are lawful there. *)
+OrdStrats(e) == IF e.big THEN STRATS \ {"linear"} ELSE STRATS
+
 LawsOn(e, r) ==
     LET nq == Len(e.qs) IN
     /\ \A s \in STRATS : Len(r[s]) = nq
-    \* bounds and end points
+    \* end points (integral positions are exact for every strategy)
     /\ \A s \in STRATS : \A j \in 1..nq :
-          /\ Lane2Min(e) <= r[s][j] /\ r[s][j] <= Lane2Max(e)
           /\ (e.qs[j].int /\ e.qs[j].k = 0) => r[s][j] = Lane2Min(e)
           /\ (e.qs[j].int /\ e.qs[j].k = e.n - 1) => r[s][j] = Lane2Max(e)
+    \* bounds
+    /\ \A s \in OrdStrats(e) : \A j \in 1..nq : Lane2Min(e) <= r[s][j] /\ r[s][j] <= Lane2Max(e)
     \* monotone in q (qs ascending)
-    /\ e.qord => \A s \in STRATS : \A j \in 1..(nq - 1) :
+    /\ e.qord => \A s \in OrdStrats(e) : \A j \in 1..(nq - 1) :
           (Sure(e.qs[j]) /\ Sure(e.qs[j + 1])) => r[s][j] <= r[s][j + 1]
     \* Lower <= {Nearest, Midpoint, Linear} <= Higher
     /\ \A j \in 1..nq : Sure(e.qs[j]) =>
-          \A s \in {"nearest", "midpoint", "linear"} : r["lower"][j] <= r[s][j] /\ r[s][j] <= r["higher"][j]
+          \A s \in OrdStrats(e) \ {"lower", "higher"} : r["lower"][j] <= r[s][j] /\ r[s][j] <= r["higher"][j]
     \* all five coincide when (N-1)q is integral
     /\ \A j \in 1..nq : (e.qs[j].int) => \A s \in STRATS : r[s][j] = r["lower"][j]
 
